@@ -16,6 +16,7 @@ package main
 // A source without an entry is a failed obligation (ordind:uncovered).
 
 import (
+	"crypto/sha256"
 	"encoding/json"
 	"fmt"
 	"go/ast"
@@ -31,6 +32,15 @@ type ordindEntry struct {
 	Loop string `json:"loop"` // descriptor: <ranged expr>.<k>  /  go.<k>
 	Rule string `json:"rule"`
 	Note string `json:"note"`
+	// argued entries are pinned to the code they were written for: sha256 of the printed declaration of the enclosing function
+	Pin string `json:"pin,omitempty"`
+}
+
+func funcPin(w *World, fi *FuncInfo) string {
+	var b strings.Builder
+	printerFprint(&b, w.Fset, fi.Decl)
+	sum := sha256.Sum256([]byte(b.String()))
+	return fmt.Sprintf("%x", sum[:8])
 }
 
 func loadOrdindTable() []ordindEntry {
@@ -92,6 +102,11 @@ func ordindObligations(cc *checkCtx, w *World) *extraResult {
 			ex.Obls = append(ex.Obls, obls...)
 			proved = append(proved, short+" "+desc+" [sorted-after]")
 		case "argued":
+			// the written argument is about the code as it was: any change of the enclosing function invalidates it
+			if pin := funcPin(w, s.FI); ent.Pin != pin {
+				ex.Obls = append(ex.Obls, presetObligation(oname+":argued:stale", s.Func, s.Pos,
+					fmt.Sprintf("the order-independence argument recorded for this loop was written for a different version of %s (pin %s, now %s)", short, ent.Pin, pin), "stale-argument"))
+			}
 			argued = append(argued, short+" "+desc+": "+ent.Note)
 		default:
 			ex.Obls = append(ex.Obls, presetObligation(oname+":rule", s.Func, s.Pos, "unknown rule "+ent.Rule, "not-generated"))
@@ -513,4 +528,183 @@ func sortedAfterObligations(w *World, src ndSource, oname string) []*Obligation 
 	return result
 }
 
-func safetySweep(cc *checkCtx, w *World) *extraResult { return nil }
+// ---- C18: safety sweep
+//
+// For every function of the packages the property names, one obligation per index / slice bound,
+// single-value type assertion, nil map store, pointer dereference, nil receiver of a dependency
+// method, division and make length is generated (no annotation needed; thin `requires` of existing
+// contracts are used). Explicit panic(...) is a diagnostic exit. Sites that cannot be proved on the
+// unchanged tree are listed in contracts/safety_baseline.json: they are NOT claimed. The check fails
+// when a site outside that list is unproved (a new unsafe site, or a guard that no longer protects
+// a proved one).
+
+var sweepPkgs = []string{
+	"analysis", "analysis/sql", "generator", "generator/go/gounions", "generator/go/randdata",
+	"generator/typescript", "generator/dart", "generator/sql", "generator/go/sqlcrud",
+}
+
+type safetySite struct {
+	Key  string `json:"key"`
+	Pos  string `json:"pos,omitempty"`
+	Why  string `json:"why,omitempty"`
+}
+
+func loadSafetyBaseline() map[string]string {
+	out := map[string]string{}
+	var sites []safetySite
+	data, err := os.ReadFile(filepath.Join(verifDir, "contracts", "safety_baseline.json"))
+	if err == nil {
+		json.Unmarshal(data, &sites)
+	}
+	for _, s := range sites {
+		out[s.Key] = s.Why
+	}
+	return out
+}
+
+// siteKeys gives each safety obligation of a function a key independent of ordinals and lines.
+func siteKeys(obls []*Obligation) map[*Obligation]string {
+	out := map[*Obligation]string{}
+	cnt := map[string]int{}
+	for _, o := range obls {
+		kind := o.Name[strings.Index(o.Name, "#")+1:]
+		if i := strings.Index(kind, "@"); i >= 0 {
+			kind = kind[:i]
+		}
+		base := shortName(o.Func) + "#" + kind + ":" + strings.Join(strings.Fields(o.Text), " ")
+		cnt[base]++
+		out[o] = fmt.Sprintf("%s#%d", base, cnt[base])
+	}
+	return out
+}
+
+type sweepResult struct {
+	obls     []*Obligation
+	keys     map[*Obligation]string
+	funcs    int
+	abstracted []string
+	failed   []string
+}
+
+func runSweep(w *World) *sweepResult {
+	sr := &sweepResult{keys: map[*Obligation]string{}}
+	want := map[string]bool{}
+	for _, p := range sweepPkgs {
+		want[repoModule+"/"+p] = true
+	}
+	for _, k := range w.sortedFuncKeys() {
+		fi := w.Funcs[k]
+		if !want[fi.Pkg.PkgPath] {
+			continue
+		}
+		var res *FuncResult
+		func() {
+			defer func() {
+				if r := recover(); r != nil {
+					sr.failed = append(sr.failed, shortName(k)+": "+fmt.Sprint(r))
+				}
+			}()
+			res = genFunc(w, fi, "safety")
+		}()
+		if res == nil {
+			continue
+		}
+		if res.Err != "" {
+			sr.failed = append(sr.failed, shortName(k)+": "+res.Err)
+			continue
+		}
+		sr.funcs++
+		if res.Abstracted {
+			sr.abstracted = append(sr.abstracted, shortName(k)+": "+strings.Join(res.Unsupported, "; "))
+		}
+		var safe []*Obligation
+		for _, o := range res.Obls {
+			if o.Kind == "safe" {
+				safe = append(safe, o)
+			}
+		}
+		for o, key := range siteKeys(safe) {
+			sr.keys[o] = key
+		}
+		sr.obls = append(sr.obls, safe...)
+	}
+	return sr
+}
+
+func safetySweep(cc *checkCtx, w *World) *extraResult {
+	ex := &extraResult{Coverage: map[string]interface{}{}}
+	sr := runSweep(w)
+	baseline := loadSafetyBaseline()
+	opts := solveOpts{TimeoutS: 4, OutDir: cc.outDir, Jobs: 8}
+	if cc.tier == "thorough" {
+		opts.TimeoutS = 20
+	}
+	solveAll(sr.obls, opts)
+	var unprovedBaseline []string
+	proved := 0
+	for _, o := range sr.obls {
+		key := sr.keys[o]
+		if o.Result == "unsat" {
+			proved++
+			ex.Obls = append(ex.Obls, o)
+			continue
+		}
+		if _, ok := baseline[key]; ok {
+			unprovedBaseline = append(unprovedBaseline, key)
+			continue
+		}
+		o.Text = o.Text + "  {site " + key + "}"
+		ex.Obls = append(ex.Obls, o) // not proved and not acknowledged: reported
+	}
+	// already solved: mark preset so that the driver does not solve again
+	for _, o := range ex.Obls {
+		o.Preset = true
+	}
+	sortStringsInPlace(unprovedBaseline)
+	ex.Coverage["sweep_functions"] = sr.funcs
+	ex.Coverage["sweep_sites"] = len(sr.obls)
+	ex.Coverage["sweep_proved"] = proved
+	ex.Coverage["unproved_sites_not_claimed"] = unprovedBaseline
+	ex.Coverage["sweep_abstracted_functions"] = sr.abstracted
+	ex.Coverage["sweep_generation_failures"] = sr.failed
+	ex.Funcs = append(ex.Funcs, fmt.Sprintf("(safety sweep: %d functions of %s)", sr.funcs, strings.Join(sweepPkgs, ", ")))
+	ex.Assumptions = append(ex.Assumptions,
+		"safety sweep: pointer receivers and pointer-typed parameters are assumed non-nil on entry; values read from the heap, from maps and from calls are not",
+		fmt.Sprintf("%d safety sites are not proved on the unchanged tree and are listed in contracts/safety_baseline.json: not claimed, a change affecting only them is not detected", len(unprovedBaseline)),
+		"the 'unbounded recursion' clause of the property (termination of createType/handleType on cyclic declarations) is not decided")
+	return ex
+}
+
+// govc sweep [-write]: prints the sweep; -write regenerates the baseline of unproved sites.
+func cmdSweep(args []string) {
+	write := len(args) > 0 && args[0] == "-write"
+	w, err := loadWorld()
+	if err != nil {
+		fmt.Fprintln(os.Stderr, err)
+		os.Exit(2)
+	}
+	sr := runSweep(w)
+	solveAll(sr.obls, solveOpts{TimeoutS: 4, OutDir: filepath.Join(verifDir, "out", "sweep"), Jobs: 8})
+	var sites []safetySite
+	proved := 0
+	for _, o := range sr.obls {
+		if o.Result == "unsat" {
+			proved++
+			continue
+		}
+		sites = append(sites, safetySite{Key: sr.keys[o], Pos: o.Pos, Why: o.Result})
+	}
+	fmt.Printf("functions=%d sites=%d proved=%d unproved=%d generation-failures=%d abstracted=%d\n", sr.funcs, len(sr.obls), proved, len(sites), len(sr.failed), len(sr.abstracted))
+	for _, f := range sr.failed {
+		fmt.Println("  generation failure:", f)
+	}
+	if write {
+		data, _ := json.MarshalIndent(sites, "", " ")
+		os.WriteFile(filepath.Join(verifDir, "contracts", "safety_baseline.json"), data, 0o644)
+		fmt.Println("baseline written")
+	} else {
+		for _, s := range sites {
+			fmt.Printf("  unproved %-8s %s   [%s]\n", s.Why, s.Key, s.Pos)
+		}
+	}
+}
